@@ -48,6 +48,37 @@ def class_key(case):
 HOOK_COMMITS = ["83fa17c"]
 NOT_CLAIMED = {}
 
+FEATURE_SETS = [
+    ("default", []),
+    ("std", ["--no-default-features", "--features", "std"]),
+    ("std+approx", ["--no-default-features", "--features", "std,approx"]),
+    ("std+serde", ["--no-default-features", "--features", "std,serde"]),
+    ("all", ["--all-features"]),
+]
+
+
+def pre_c20(ctx):
+    """the crate builds under each advertised feature combination (a precondition of the tie;
+    decided by the compiler, not by a theorem)"""
+    import os
+    violations, samples, built = [], [], []
+    tdir = os.path.join(ctx["HARNESS"], "target-features")
+    for name, flags in FEATURE_SETS:
+        cmd = ["cargo", "build", "--offline", "--quiet", "--lib", "--manifest-path",
+               os.path.join(ctx["REPO"], "Cargo.toml"), "--target-dir", tdir] + flags
+        rc, out = ctx["sh"](cmd, timeout=3600)
+        first = next((l for l in out.splitlines() if l.startswith("error")), out.strip().splitlines()[-1] if out.strip() else "")
+        samples.append(f"feature set {name}: cargo build {' '.join(flags) or '(default features)'} -> {'ok' if rc == 0 else 'FAILED: ' + first}")
+        if rc == 0:
+            built.append(name)
+        else:
+            violations.append({"class": f"C20|build|{name}", "what": f"cargo build {' '.join(flags)} fails: {first}"})
+    res = {"violations": violations, "samples": samples, "coverage": {"feature_sets_built": built}}
+    if "std+serde" not in built:
+        res["skip_cases"] = True
+    return res
+
+
 PROPS = {
     "C07": dict(
         technique="Lean 4 theorems (set semantics over any linear order) + exhaustive differential correspondence",
@@ -326,5 +357,44 @@ PROPS = {
                    "|c1-c2|/|c| of the half-width).",
         rule="60 (quick) / 400 (thorough) data sets per producer {arith, paired, unpaired, geo, harm} x {f32, f64} x {scale 2^e, negate, shift, reorder} + all 120 "
              "permutations of a 5-element sample every 20th round; distinct by sha1 of the input",
+    ),
+    "C06": dict(
+        modules=["StatsCI.Properties.C06"],
+        anchors=["src/stats.rs", "src/confidence.rs", "src/mean.rs", "src/comparison.rs", "src/proportion.rs"],
+        needs_crit=True, exact_ops=set(),
+        technique="Lean 4 theorems (which quantile of which law at which dof is requested; conditional inverse-CDF statement; recovery of the critical value from an interval) + numerical validation of the external quantile routine against an independent reference CDF",
+        level_text="Kernel-checked theorems over the model: Confidence::quantile is (1+L)/2 two-sided and L one-sided; interval_bounds consults exactly one "
+                   "request - the t law iff dof < 100 000, else the normal law - and its span is that value times the standard error; the dof handed over is n-1 for "
+                   "mean / paired intervals and the documented effective dof for unpaired ones; IF the external routine is a right inverse of the CDF THEN the "
+                   "critical value recovered from any Ok interval (half-width / standard error) has CDF exactly (1+L)/2 resp. L; the z recovered from a Wilson "
+                   "interval is the z supplied. The 'if' is validated numerically on every run: implied critical values through the public API (every n from 2 to "
+                   "400/2002 by incremental append, log-spaced to 150 000, both sides of the switch, unpaired real-valued dof) and through the hook (dense integer "
+                   "and real dof, 400-point level grid incl. levels below 1/2, three kinds) are pushed through an independent reference CDF (incomplete beta by "
+                   "continued fraction, erfc by series / continued fraction; cross-checked against the closed forms for dof 1 and 2 and against scipy in development).",
+        level_note="Partial by nature: that statrs' inverse_cdf IS the quantile function is a numerical fact about an external crate, validated to the documented "
+                   "tolerance 1e-12 + 2.5e-10 dof (t) and 1e-14 (z) of spec/slack.json, not proved; that the t statistic of a normal sample has the t distribution "
+                   "(exact coverage) is textbook mathematics not in Mathlib. Trusted: Lean kernel + 3 standard axioms; the reference CDF implementation.",
+        rule="tcrit: every n in 2..400 (quick) / 2..2002 (thorough) + 11-20 larger n through the switch, levels from a 400-point grid, kinds rotating; hook: "
+             "2500 / 20000 (dof, level, kind) triples over integer dof 1..300, real dof, dof around 1e5; zprop: 500 / 4000 (n,k); ucrit: 250 / 2000 sample pairs; "
+             "distinct by sha1 of the input",
+        assumptions=["the reference CDFs are accurate to 1e-12 (checked against closed forms on every build of the driver's self-check; against scipy in development)"],
+    ),
+    "C20": dict(
+        modules=["StatsCI.Properties.C20"],
+        anchors=["Cargo.toml", "src/utils.rs", "src/mean.rs", "src/comparison.rs", "src/proportion.rs", "src/confidence.rs", "src/interval.rs"],
+        exact_ops="all", pre=pre_c20, harness_features="serde", harness_target="target-serde",
+        technique="Lean 4 theorems (decode . encode = id for every serializable value and state; continuation from the restored state) + differential correspondence of the value tree serde produces, after building every advertised feature set",
+        level_text="Kernel-checked theorems over a model of the derived Serialize/Deserialize implementations (externally tagged enums, structs as maps with the "
+                   "crate's field names): decode(encode s) = some s for Confidence, Interval, the compensated register (with its compensation term), Arithmetic, "
+                   "Geometric, Harmonic, Paired, Unpaired and proportion::Stats; encodings are injective; any further history started from the restored state equals "
+                   "the history started from the original. Tied to the code with the serde feature on: states reached by random accumulation histories (non-zero "
+                   "compensation terms) are serialised to a serde_json value tree that must equal the model's tree field for field and bit for bit; the restored "
+                   "value must compare equal, report identical statistics and intervals and stay identical under 100 further observations and a merge (JSON value, "
+                   "JSON text with float_roundtrip, TOML). The clause 'every advertised feature set builds' is decided by building the crate under default, std, "
+                   "std+approx, std+serde and all features on every run; a set that does not build is reported with the cargo command and first error.",
+        level_note="Partial: the build clause is a compiler fact, not a theorem. The serde data model of the derives is transcribed by hand in Model/Serde.lean "
+                   "and checked only through the trees serde_json produces. Trusted: Lean kernel + 3 standard axioms; serde / serde_json / toml.",
+        rule="5 feature-set builds; 40 (quick) / 300 (thorough) rounds x 9 state types (f32/f64) reached by random programs of up to 30-150 operations + a "
+             "Confidence and an Interval per round; distinct by sha1 of the program",
     ),
 }
